@@ -44,6 +44,9 @@ def seg_alphabet():
         # fragmented messages whose FIRST fragment is empty (the frame that carries the message opcode), text and binary
         ("frag-empty-first", [R.encode(R.TEXT, b"", fin=0) + R.encode(R.CONT, "h\u00e9".encode(), fin=0) + R.encode(R.CONT, b"", fin=1),
                               R.encode(R.BINARY, b"", fin=0) + R.encode(R.CONT, b"\x01\x02", fin=1)]),
+        # control frames at the payload-size limits (0 and 125 bytes), and messages at the length-form boundaries
+        ("ctl-limits", [R.encode(R.PING, bytes(range(125))) + R.encode(R.PONG, b"\xfe" * 125), R.encode(R.PING, b"") + R.encode(R.PONG, b"")]),
+        ("len-boundaries", [R.encode(R.TEXT, b"a" * 125) + R.encode(R.BINARY, b"b" * 126), R.encode(R.TEXT, b"") + R.encode(R.BINARY, b"")]),
         # a text message cut inside multi-byte characters at both fragment boundaries (with a ping in between)
         ("frag-split-char", [R.encode(R.TEXT, b"w\xc3", fin=0) + R.encode(R.CONT, b"\xb6r\xe2\x82", fin=0), R.encode(R.PING, b"m") + R.encode(R.CONT, b"\xacd", fin=1)]),
     ]
